@@ -70,8 +70,8 @@ SOURCES = ['imp:n=%(n)s', 'none', 'imp:n,p=%(n)s', 'imp:n=%(n)s imp:p=%(p)s', 'i
            'like:']
 
 
-OTHER_KW = ['', 'vol=1', 'unc:n=1', 'nonu=1', 'tmp=2.53e-8', 'pwt=1', 'ext:n=0', 'fcl:n=0', 'elpt:n=0.1',
-            'wwn1:n=0.5', 'dxc1:n=1', 'pd1=0.5', 'cosy=1', 'bflcl=0', 'VOL 2 TMP 2.53E-8']
+OTHER_KW = ['', 'vol=1', 'unc:n=1', 'nonu=1', 'tmp=2.53e-8', 'pwt=1', 'ext:n=0 fcl:n=0 elpt:n=0.1',
+            'wwn1:n=0.5 dxc1:n=1 pd1=0.5', 'cosy=1 bflcl=0', 'VOL 2 TMP 2.53E-8']
 
 
 def fmtnum(v):
@@ -159,9 +159,19 @@ def build_n(ncells):
     return build
 
 
+def b_many(ch):
+    """12 / 40 / 130 cells (generator of C01 'slabs'): numbers across digit boundaries, long IMP data cards with
+    repeats over several lines, every 7th cell of importance 0"""
+    from . import c01
+    st = c01.b_slabs(ch)
+    st.expected = dict(st.slab_imps)
+    st.filled = None
+    return st
+
+
 def scenarios(tier):
     q = tier == 'quick'
-    return [Scn('cells3', build_n(3), 4 if q else None, None, '3 cells'),
+    return [Scn('many-cells', b_many, None, None, 'decks of 12 / 40 / 130 cells, IMP cards with long repeats')] + [Scn('cells3', build_n(3), 4 if q else None, None, '3 cells'),
             Scn('cells4', build_n(4), 3 if q else 4, 4, '4 cells'),
             Scn('cells5', build_n(5), 3 if q else 4, 4, '5 cells')]
 
